@@ -185,6 +185,9 @@ impl Scanner {
                 return self.make_token(TokenType::Illegal, &tok);
             }
             let the_byte = self.input[self.position];
+            if the_byte == '\n' {
+                self.line += 1;
+            }
             // Consume ending quote (')
             self.read_char();
             if self.ch == '\'' {
